@@ -541,6 +541,78 @@ func main() {
 			t.Outcome("same-as-fresh")
 		})
 
+		// A message that ends in an error the stream survives (a text message whose payload turns
+		// out not to be UTF-8, read to its last byte or not), then Discard, then the next message:
+		// the reader must treat that next message like a fresh reader does.
+		r.Part("E7b-Reader-after-a-rejected-message", func(t *explore.T) {
+			bad := [][]byte{{0xff}, {'a', 0xff}, {0xe2, 0x82}, {'a', 'b', 0xc3}, {0xf0, 0x9f, 0x98}, {0xed, 0xa0, 0x80}, {0xc3, 0xa9, 0x80}}
+			consume := func(rd *wsutil.Reader, max int) string {
+				var b strings.Builder
+				for i := 0; i < max; i++ {
+					h, err := rd.NextFrame()
+					if err != nil {
+						fmt.Fprintf(&b, "NextFrame:%v", err)
+						break
+					}
+					p, err := io.ReadAll(rd)
+					fmt.Fprintf(&b, "[op=%x %x err=%v]", byte(h.OpCode), p, err)
+					if err != nil {
+						break
+					}
+				}
+				return b.String()
+			}
+			for _, side := range []streams.Side{streams.Server, streams.Client} {
+				var probes [][]streams.Frame
+				streams.Valid(streams.Opts{Depth: 2, Side: side}, func(fr []streams.Frame) {
+					probes = append(probes, append([]streams.Frame{}, fr...))
+				})
+				for _, payload := range bad {
+					for split := 0; split <= len(payload); split++ {
+						for _, readAll := range []bool{true, false} {
+							side, payload, split, readAll := side, payload, split, readAll
+							t.DoN(int64(len(probes)), func() string {
+								return fmt.Sprintf("%s text %x|%x (read to the end: %v), Discard, then every valid stream of depth<=2", side, payload[:split], payload[split:], readAll)
+							}, func() *explore.Fail {
+								mk := func(i int, op byte, fin bool, p []byte) []byte {
+									return streams.Frame{H: refmodel.Hdr{Fin: fin, Op: op, Masked: side == streams.Server, Mask: streams.Masks[i%3]}, Payload: p}.Wire()
+								}
+								var hist []byte
+								if split == 0 || split == len(payload) {
+									hist = mk(0, 1, true, payload)
+								} else {
+									hist = append(mk(0, 1, false, payload[:split]), mk(0, 0, true, payload[split:])...)
+								}
+								for _, q := range probes {
+									qd, _ := streams.Wire(q)
+									rd := &wsutil.Reader{Source: env.NewSrc(append(append([]byte{}, hist...), qd...)), State: drivers.State(side), CheckUTF8: true}
+									if _, err := rd.NextFrame(); err != nil {
+										return explore.Failf("harness-history", "%v", err)
+									}
+									if readAll {
+										io.ReadAll(rd)
+									} else {
+										rd.Read(make([]byte, 1))
+									}
+									if err := rd.Discard(); err != nil && err != wsutil.ErrInvalidUTF8 {
+										return explore.Failf("Discard-after-rejected-message", "%v", err)
+									}
+									got := consume(rd, len(q)+1)
+									fresh := &wsutil.Reader{Source: env.NewSrc(qd), State: drivers.State(side), CheckUTF8: true}
+									want := consume(fresh, len(q)+1)
+									if got != want {
+										return explore.Failf("Reader-after-rejected-message-differs-from-fresh", "probe [%s]\nafter history: %s\nfresh reader:  %s", streams.Describe(q), got, want)
+									}
+								}
+								return nil
+							})
+						}
+					}
+				}
+			}
+			t.Outcome("same-as-fresh")
+		})
+
 		r.Part("E7-Reader-consecutive-messages", func(t *explore.T) {
 			depth := t.Pick(3, 4)
 			probes := func(side streams.Side) [][]streams.Frame {
